@@ -182,8 +182,10 @@ def export_func(fn: Any) -> dict[str, Any]:
                     name = "SetAttr:" + op.attr
                 elif isinstance(op, (O.Call, O.MethodCall)):
                     name = name + ":" + (op.fn.shortname if isinstance(op, O.Call) else op.method)
-                if op.error_kind == O.ERR_NEVER and op in tested and isinstance(op, (O.Call, O.MethodCall)):
-                    rn = True  # a native call whose error handling was customised by the IR builder
+                if op.error_kind == O.ERR_NEVER and op in tested and isinstance(op, (O.Call, O.MethodCall, O.CallC, O.PrimitiveOp)):
+                    # a call whose result is tested for the error value although it `never fails':
+                    # NULL is a regular result (PyIter_Next at the end, the generator helper, ...)
+                    rn = True
                 ek = int(op.error_kind)
                 nok: list[int] = []
                 if isinstance(op, O.GetAttr) and op.attr.startswith(SPILL_PREFIX) and op not in tested:
@@ -1103,6 +1105,8 @@ def main(argv: list[str]) -> int:
             ek = exits.get("native." + rc_["fn"])
             if ek is not None:
                 for out in rc_["outs"]:
+                    if rc_["typed"] and out == "TypeError":
+                        continue   # may come from the argument conversion of the Python-level wrapper, not the body
                     need = "value" if out == "ret" else "error"
                     if need not in ek:
                         drift.append("%s: observed %s but the machine's paths of %s end in %s" % (ck, out, rc_["fn"], sorted(ek)))
